@@ -164,8 +164,10 @@ KINDS: dict[str, dict] = {
     "cat": {"values": ["a", None], "cls": "c", "c": "c", "txt": "cat('a',None)", "dist": CategoricalDistribution(("a", None))},
     "f05": {"values": [0.0, 0.5, 1.0], "cls": "f", "c": "f", "txt": "float[0..1 step .5]", "dist": FloatDistribution(0.0, 1.0, step=0.5)},
     "i33": {"values": [3], "cls": "", "c": "i", "txt": "int[3..3]", "dist": IntDistribution(3, 3)},
+    # decimal grid whose upper bound is not a binary fraction (the double nearest to 0.3 lies below it)
+    "f03": {"values": [0.0, 0.1, 0.2, 0.3], "cls": "f", "c": "f", "txt": "float[0..0.3 step .1]", "dist": FloatDistribution(0.0, 0.3, step=0.1)},
 }
-FULL_ALPHABET = ("i01", "i02", "i04s2", "li14", "cat", "f05", "i33")
+FULL_ALPHABET = ("i01", "i02", "i04s2", "li14", "cat", "f05", "i33", "f03")
 SMALL_ALPHABET = ("i01", "f05", "i33")
 
 
@@ -184,6 +186,8 @@ def suggest(trial: Any, name: str, kind: str) -> Any:
         return trial.suggest_float(name, 0.0, 1.0, step=0.5)
     if kind == "i33":
         return trial.suggest_int(name, 3, 3)
+    if kind == "f03":
+        return trial.suggest_float(name, 0.0, 0.3, step=0.1)
     raise AssertionError(kind)
 
 
